@@ -304,7 +304,11 @@ func (d *dynUpdater) checkBackendPair(pair *backendPair) bool {
 
 	// copy remaining empty slots from oldBack to curBack, so it can be used in a future update
 	for i := len(added); i < len(empty); i++ {
-		curBack.AddEmptyEndpoint().Name = empty[i].Name
+		ep := curBack.AddEmptyEndpoint()
+		ep.Name = empty[i].Name
+		// the cookie value of a running server cannot be changed, so the
+		// slot continues to have the same value when it is used again
+		ep.CookieValue = empty[i].CookieValue
 	}
 
 	return updated
